@@ -67,6 +67,8 @@ def _run_job(job):
     ex = make_executor(prog, extra, unwind=opts.get('unwind', 64))
     ex.unwind_limits.update(opts.get('unwind_limits', {}))
     ex.job = job
+    ex.pin_consts = bool(opts.get('pin_consts'))
+    ex.fp_mode = bool(opts.get('fp_mode'))
     st = State()
     pkg = PKGS[job['pkg']]
     inits = [PKGS['root']] if job['pkg'] in ('root',) else [PKGS['root'], pkg]
